@@ -1,5 +1,5 @@
-(* Proofs/C35Ul.v — UploadRequest without a filter: decode (encode m) = canon m
-   (wants and shallows sorted and de-duplicated; every depth form). *)
+(* Proofs/C35Ul.v — UploadRequest: decode (encode m) = canon m
+   (wants and shallows sorted and de-duplicated; every depth form; the filter line). *)
 From Coq Require Import List NArith ZArith Bool Lia Arith String.
 From GoGit Require Import Base.Out Model.PktLine Model.Packp Proofs.C34Pkt Proofs.C35Base Proofs.C35Msgs
   Proofs.C35Caps Proofs.C35Adv Proofs.C35Dec.
@@ -7,19 +7,24 @@ Import ListNotations.
 
 Definition int64_ok (z : Z) : bool := ((- 2 ^ 63 <=? z) && (z <? 2 ^ 63))%Z.
 
+(* a DeepenSince that Go can hold: time.Unix(t, 0) is the zero time ("unset") for exactly one t *)
+Definition since_ok (t : Z) : bool := int64_ok t && negb (t =? -62135596800)%Z.
+
+Lemma since_of_ok t : since_ok t = true -> since_of t = Some t.
+Proof. unfold since_ok, since_of. intros H. apply andb_prop in H. destruct H as [_ H]. apply negb_true_iff in H. now rewrite H. Qed.
+
 Definition ul_ok (u : ulreq) : bool :=
   caps_ok (ul_caps u) && negb (Nat.eqb (List.length (ul_wants u)) 0) &&
   forallb hash_ok (ul_wants u) && forallb hash_ok (ul_shallows u) &&
   (0 <=? ul_deepen u)%Z && int64_ok (ul_deepen u) &&
-  match ul_since u with Some t => int64_ok t | None => true end &&
-  (negb (ul_deepen u >? 0)%Z || (match ul_since u with None => true | _ => false end && Nat.eqb (List.length (ul_not u)) 0)) &&
-  Nat.eqb (List.length (ul_filter u)) 0.
+  match ul_since u with Some t => since_ok t | None => true end &&
+  (negb (ul_deepen u >? 0)%Z || (match ul_since u with None => true | _ => false end && Nat.eqb (List.length (ul_not u)) 0)).
 
 Definition ul_canon (u : ulreq) : ulreq :=
   mkulreq (ul_caps u)
           (match sort_hashes (ul_wants u) with [] => [] | w0 :: ws => w0 :: dedup_from w0 ws end)
           (dedup_from zero_hash (sort_hashes (ul_shallows u)))
-          (ul_deepen u) (ul_since u) (ul_not u) [].
+          (ul_deepen u) (ul_since u) (ul_not u) (ul_filter u).
 
 (* what every loop of the decoder does after nextLine *)
 Definition after_line (items : list item) (u : ulreq) : ulreq + derr :=
@@ -106,24 +111,77 @@ Proof.
     now rewrite <- app_assoc.
 Qed.
 
-(* ---------- depth lines ---------- *)
-Lemma after_flush u : after_line (map item_of [PFlush]) u = inl u.
-Proof. reflexivity. Qed.
-
+(* ---------- depth lines and the filter line ---------- *)
 Definition set_not (u : ulreq) (ns : list bytes) := mkulreq (ul_caps u) (ul_wants u) (ul_shallows u) (ul_deepen u) (ul_since u) ns (ul_filter u).
+Definition set_filter (u : ulreq) (f : bytes) := mkulreq (ul_caps u) (ul_wants u) (ul_shallows u) (ul_deepen u) (ul_since u) (ul_not u) f.
 
-Lemma deepen_not_lines : forall ns rev u, ul_deepen u = 0%Z ->
-  forall r0, ul_deepen_go (B "deepen-not " ++ r0)
-               (map item_of (map (fun r => PData (B "deepen-not " ++ r ++ [NL])) ns ++ [PFlush])) None rev u
-  = inl (set_not u (ul_not u ++ r0 :: ns)).
+(* what Encode writes after the depth lines *)
+Definition ftail (f : bytes) : list pkt :=
+  match f with [] => [] | _ => [PData (B "filter " ++ f ++ [NL])] end ++ [PFlush].
+
+Lemma filter_line_go f rev u :
+  ul_deepen_go (B "filter " ++ f) (map item_of [PFlush]) None rev u = inl (set_filter u f).
 Proof.
-  induction ns as [|n ns IH]; intros rev u Hd r0.
-  - cbn [map app ul_deepen_go].
-    change (has_prefix (B "deepen") (B "deepen-not " ++ r0)) with true.
-    change (has_prefix (B "deepen ") (B "deepen-not " ++ r0)) with false.
-    change (has_prefix (B "deepen-since ") (B "deepen-not " ++ r0)) with false.
-    rewrite has_prefix_app. cbv iota. replace (ul_deepen u >? 0)%Z with false by (now rewrite Hd). cbn [negb].
-    rewrite (skipn_app_exact (B "deepen-not ") r0 11 eq_refl). cbn [ul_line item_of fst Z.eqb]. reflexivity.
+  cbn [map item_of ul_deepen_go].
+  change (has_prefix (B "deepen") (B "filter " ++ f)) with false. cbn [negb].
+  destruct (B "filter " ++ f) as [|c0 l0] eqn:E; [discriminate|]. rewrite <- E.
+  rewrite has_prefix_app. unfold ul_filter_go. cbn [ul_line fst Z.eqb].
+  rewrite (skipn_app_exact (B "filter ") f 7 eq_refl). reflexivity.
+Qed.
+
+Lemma shallow_go_other line items u : has_prefix (B "shallow ") line = false ->
+  ul_shallow_go line items None u = ul_deepen_go line items None false u.
+Proof. intros H. destruct items; cbn [ul_shallow_go]; rewrite H; reflexivity. Qed.
+
+(* no depth line at all: the tail alone *)
+Lemma after_ftail f u : ul_filter u = [] -> after_line (map item_of (ftail f)) u = inl (set_filter u f).
+Proof.
+  intros Hf. destruct f as [|c f'].
+  - cbn. destruct u; cbn in *; subst; reflexivity.
+  - unfold ftail. cbn [app map]. unfold after_line.
+    change (B "filter " ++ c :: f' ++ [NL]) with ((B "filter " ++ c :: f') ++ [NL]).
+    rewrite ul_line_data by discriminate.
+    destruct (B "filter " ++ c :: f') as [|c0 l0] eqn:E; [discriminate|]. rewrite <- E.
+    rewrite shallow_go_other by reflexivity. apply (filter_line_go (c :: f') false u).
+Qed.
+
+(* the filter line met by the deepen loop after a deepen-since / deepen-not line *)
+Lemma next_filter c f' (u : ulreq) (rv : bool) : (ul_deepen u >? 0)%Z = false ->
+    match ul_line (item_of (PData (B "filter " ++ c :: f' ++ [NL]))) with
+    | None => inl u
+    | Some [] => inl u
+    | Some l' =>
+      if (ul_deepen u >? 0)%Z then
+        if has_prefix (B "filter ") l' then ul_filter_go l' (map item_of [PFlush]) None u else
+        (if has_prefix (B "deepen-since ") l' || has_prefix (B "deepen-not ") l' then inr EOther else inr EUnexpected)
+      else if rv && has_prefix (B "deepen") l' && negb (has_prefix (B "deepen-since ") l')
+              && negb (has_prefix (B "deepen-not ") l') then inr EOther
+      else ul_deepen_go l' (map item_of [PFlush]) None rv u
+    end = inl (set_filter u (c :: f')).
+Proof.
+  intros Hd.
+  change (B "filter " ++ c :: f' ++ [NL]) with ((B "filter " ++ c :: f') ++ [NL]).
+  rewrite ul_line_data by discriminate.
+  destruct (B "filter " ++ c :: f') as [|c0 l0] eqn:E; [discriminate|]. rewrite <- E. rewrite Hd.
+  change (has_prefix (B "deepen") (B "filter " ++ c :: f')) with false. rewrite andb_false_r. cbn [andb].
+  apply (filter_line_go (c :: f') rv u).
+Qed.
+
+Lemma deepen_not_lines : forall ns rev u f, ul_deepen u = 0%Z -> ul_filter u = [] ->
+  forall r0, ul_deepen_go (B "deepen-not " ++ r0)
+               (map item_of (map (fun r => PData (B "deepen-not " ++ r ++ [NL])) ns ++ ftail f)) None rev u
+  = inl (set_filter (set_not u (ul_not u ++ r0 :: ns)) f).
+Proof.
+  induction ns as [|n ns IH]; intros rev u f Hd Hf r0.
+  - destruct f as [|c f']; unfold ftail; cbn [map app ul_deepen_go];
+    change (has_prefix (B "deepen") (B "deepen-not " ++ r0)) with true;
+    change (has_prefix (B "deepen ") (B "deepen-not " ++ r0)) with false;
+    change (has_prefix (B "deepen-since ") (B "deepen-not " ++ r0)) with false;
+    rewrite has_prefix_app; cbv iota; replace (ul_deepen u >? 0)%Z with false by (now rewrite Hd); cbn [negb];
+    rewrite (skipn_app_exact (B "deepen-not ") r0 11 eq_refl).
+    + cbn [ul_line item_of fst Z.eqb]. destruct u; cbn in *; subst; reflexivity.
+    + apply (next_filter c f' (mkulreq (ul_caps u) (ul_wants u) (ul_shallows u) (ul_deepen u) (ul_since u) (ul_not u ++ [r0]) (ul_filter u)) true).
+      cbn [ul_deepen]. now rewrite Hd.
   - cbn [map app ul_deepen_go].
     change (has_prefix (B "deepen") (B "deepen-not " ++ r0)) with true.
     change (has_prefix (B "deepen ") (B "deepen-not " ++ r0)) with false.
@@ -134,40 +192,45 @@ Proof.
     destruct (B "deepen-not " ++ n) as [|c0 l0] eqn:E; [discriminate|]. rewrite <- E.
     cbn [ul_deepen]. replace (ul_deepen u >? 0)%Z with false by (now rewrite Hd).
     change (has_prefix (B "deepen-not ") (B "deepen-not " ++ n)) with true. cbn [negb andb]. rewrite andb_false_r.
-    rewrite IH by (cbn [ul_deepen]; assumption). unfold set_not. cbn [ul_caps ul_wants ul_shallows ul_deepen ul_since ul_not ul_filter].
+    rewrite IH by (cbn [ul_deepen ul_filter]; assumption). unfold set_filter, set_not. cbn [ul_caps ul_wants ul_shallows ul_deepen ul_since ul_not ul_filter].
     now rewrite <- app_assoc.
 Qed.
-
-Lemma shallow_go_other line items u : has_prefix (B "shallow ") line = false ->
-  ul_shallow_go line items None u = ul_deepen_go line items None false u.
-Proof. intros H. destruct items; cbn [ul_shallow_go]; rewrite H; reflexivity. Qed.
 
 Lemma dec_line_ne pre z : pre ++ dec_bytes z <> [].
 Proof. destruct (dec_bytes_chars z) as [_ H]. destruct pre; [exact H|discriminate]. Qed.
 
-(* the depth section of a well-formed request, starting from a decoded request
-   without depth *)
-Lemma after_depth u0 deepen since nots :
-  ul_deepen u0 = 0%Z -> ul_since u0 = None -> ul_not u0 = [] ->
-  (0 <= deepen)%Z -> int64_ok deepen = true -> match since with Some t => int64_ok t | None => true end = true ->
+(* the depth section and the filter line of a well-formed request, starting
+   from a decoded request without depth and filter *)
+Lemma after_depth u0 deepen since nots f :
+  ul_deepen u0 = 0%Z -> ul_since u0 = None -> ul_not u0 = [] -> ul_filter u0 = [] ->
+  (0 <= deepen)%Z -> int64_ok deepen = true -> match since with Some t => since_ok t | None => true end = true ->
   ((deepen >? 0)%Z = false \/ (since = None /\ nots = [])) ->
   after_line (map item_of ((if (deepen >? 0)%Z then [PData (B "deepen " ++ dec_bytes deepen ++ [NL])] else []) ++
                            match since with Some t => [PData (B "deepen-since " ++ dec_bytes t ++ [NL])] | None => [] end ++
-                           map (fun r => PData (B "deepen-not " ++ r ++ [NL])) nots ++ [PFlush])) u0
-  = inl (mkulreq (ul_caps u0) (ul_wants u0) (ul_shallows u0) deepen since nots (ul_filter u0)).
+                           map (fun r => PData (B "deepen-not " ++ r ++ [NL])) nots ++ ftail f)) u0
+  = inl (mkulreq (ul_caps u0) (ul_wants u0) (ul_shallows u0) deepen since nots f).
 Proof.
-  intros Hd Hs Hn H0 Hi Hsi Hex. unfold int64_ok in *.
+  intros Hd Hs Hn Hfl H0 Hi Hsi Hex. unfold int64_ok in *.
   destruct (Z.gtb_spec deepen 0) as [Hpos|Hz].
   - (* deepen n *)
     destruct Hex as [Hex|[-> ->]]; [discriminate|]. cbn [app map]. unfold after_line.
     change (B "deepen " ++ dec_bytes deepen ++ [NL]) with ((B "deepen " ++ dec_bytes deepen) ++ [NL]).
     rewrite ul_line_data by discriminate.
     destruct (B "deepen " ++ dec_bytes deepen) as [|c0 l0] eqn:E; [discriminate|]. rewrite <- E.
-    rewrite shallow_go_other by reflexivity. cbn [map ul_deepen_go]. change (has_prefix (B "deepen") (B "deepen " ++ dec_bytes deepen)) with true. cbn [negb].
-    rewrite has_prefix_app, (skipn_app_exact (B "deepen ") (dec_bytes deepen) 7 eq_refl).
-    rewrite (parse_int_dec deepen) by (apply andb_prop in Hi; destruct Hi as [A B']; apply Z.leb_le in A; apply Z.ltb_lt in B'; lia).
-    destruct (Z.ltb_spec deepen 0); [lia|]. rewrite Hi. cbn [ul_line item_of fst Z.eqb].
-    destruct u0; cbn in *; subst; reflexivity.
+    rewrite shallow_go_other by reflexivity.
+    destruct f as [|c f']; unfold ftail; cbn [app map ul_deepen_go];
+    change (has_prefix (B "deepen") (B "deepen " ++ dec_bytes deepen)) with true; cbn [negb];
+    rewrite has_prefix_app, (skipn_app_exact (B "deepen ") (dec_bytes deepen) 7 eq_refl);
+    rewrite (parse_int_dec deepen) by (apply andb_prop in Hi; destruct Hi as [A B']; apply Z.leb_le in A; apply Z.ltb_lt in B'; lia);
+    (destruct (Z.ltb_spec deepen 0); [lia|]); rewrite Hi.
+    + cbn [ul_line item_of fst Z.eqb]. destruct u0; cbn in *; subst; reflexivity.
+    + change (B "filter " ++ c :: f' ++ [NL]) with ((B "filter " ++ c :: f') ++ [NL]).
+      rewrite ul_line_data by discriminate.
+      destruct (B "filter " ++ c :: f') as [|c1 l1] eqn:E1; [discriminate|]. rewrite <- E1.
+      cbn [ul_deepen]. replace (deepen >? 0)%Z with true by (symmetry; apply Z.gtb_lt; lia).
+      rewrite has_prefix_app. unfold ul_filter_go. cbn [map item_of ul_line fst Z.eqb].
+      rewrite (skipn_app_exact (B "filter ") (c :: f') 7 eq_refl).
+      destruct u0; cbn in *; subst; reflexivity.
   - assert (deepen = 0%Z) as -> by lia. cbn [app]. destruct since as [t|].
     + (* deepen-since, then the deepen-not lines *)
       cbn [app map]. unfold after_line.
@@ -176,29 +239,34 @@ Proof.
       destruct (B "deepen-since " ++ dec_bytes t) as [|c0 l0] eqn:E; [discriminate|]. rewrite <- E.
       rewrite shallow_go_other by reflexivity.
       assert (Hpi : parse_int (dec_bytes t) = Some t).
-      { apply parse_int_dec. apply andb_prop in Hsi. destruct Hsi as [A B']. apply Z.leb_le in A. apply Z.ltb_lt in B'. lia. }
+      { apply parse_int_dec. unfold since_ok, int64_ok in Hsi. apply andb_prop in Hsi. destruct Hsi as [Hsi _].
+        apply andb_prop in Hsi. destruct Hsi as [A B']. apply Z.leb_le in A. apply Z.ltb_lt in B'. lia. }
+      pose proof (since_of_ok t Hsi) as Hso.
       destruct nots as [|n nots].
+      * destruct f as [|c f']; unfold ftail; cbn [map app ul_deepen_go];
+        change (has_prefix (B "deepen") (B "deepen-since " ++ dec_bytes t)) with true;
+        change (has_prefix (B "deepen ") (B "deepen-since " ++ dec_bytes t)) with false; cbn [negb];
+        rewrite has_prefix_app, Hd; cbn [Z.gtb Z.compare]; rewrite (skipn_app_exact (B "deepen-since ") (dec_bytes t) 13 eq_refl), Hpi, Hso.
+        -- cbn [ul_line item_of fst Z.eqb]. destruct u0; cbn in *; subst; reflexivity.
+        -- etransitivity; [apply (next_filter c f' (mkulreq (ul_caps u0) (ul_wants u0) (ul_shallows u0) 0 (Some t) (ul_not u0) (ul_filter u0)) true); reflexivity|].
+           unfold set_filter. cbn [ul_caps ul_wants ul_shallows ul_deepen ul_since ul_not ul_filter]. now rewrite Hn.
       * cbn [map app ul_deepen_go]. change (has_prefix (B "deepen") (B "deepen-since " ++ dec_bytes t)) with true.
         change (has_prefix (B "deepen ") (B "deepen-since " ++ dec_bytes t)) with false. cbn [negb].
-        rewrite has_prefix_app, Hd. cbn [Z.gtb Z.compare]. rewrite (skipn_app_exact (B "deepen-since ") (dec_bytes t) 13 eq_refl), Hpi.
-        cbn [ul_line item_of fst Z.eqb]. destruct u0; cbn in *; subst; reflexivity.
-      * cbn [map app ul_deepen_go]. change (has_prefix (B "deepen") (B "deepen-since " ++ dec_bytes t)) with true.
-        change (has_prefix (B "deepen ") (B "deepen-since " ++ dec_bytes t)) with false. cbn [negb].
-        rewrite has_prefix_app, Hd. cbn [Z.gtb Z.compare]. rewrite (skipn_app_exact (B "deepen-since ") (dec_bytes t) 13 eq_refl), Hpi.
+        rewrite has_prefix_app, Hd. cbn [Z.gtb Z.compare]. rewrite (skipn_app_exact (B "deepen-since ") (dec_bytes t) 13 eq_refl), Hpi, Hso.
         change (B "deepen-not " ++ n ++ [NL]) with ((B "deepen-not " ++ n) ++ [NL]). rewrite ul_line_data by discriminate.
         destruct (B "deepen-not " ++ n) as [|c1 l1] eqn:E1; [discriminate|]. rewrite <- E1.
         cbn [ul_deepen]. cbn [Z.gtb Z.compare].
         change (has_prefix (B "deepen-not ") (B "deepen-not " ++ n)) with true. cbn [negb andb]. rewrite andb_false_r.
-        rewrite deepen_not_lines by reflexivity.
-        unfold set_not. cbn [ul_caps ul_wants ul_shallows ul_deepen ul_since ul_not ul_filter]. rewrite ?Hn, ?Hd. destruct u0; reflexivity.
+        rewrite deepen_not_lines by (cbn [ul_deepen ul_filter]; auto).
+        unfold set_filter, set_not. cbn [ul_caps ul_wants ul_shallows ul_deepen ul_since ul_not ul_filter]. rewrite ?Hn. reflexivity.
     + destruct nots as [|n nots].
-      * cbn [map app]. rewrite after_flush. destruct u0; cbn in *; subst; reflexivity.
+      * cbn [map app]. rewrite after_ftail by assumption. unfold set_filter. rewrite Hd, Hs, Hn. reflexivity.
       * cbn [map app]. unfold after_line.
         change (B "deepen-not " ++ n ++ [NL]) with ((B "deepen-not " ++ n) ++ [NL]). rewrite ul_line_data by discriminate.
         destruct (B "deepen-not " ++ n) as [|c1 l1] eqn:E1; [discriminate|]. rewrite <- E1.
         rewrite shallow_go_other by reflexivity.
         rewrite deepen_not_lines by assumption.
-        unfold set_not. rewrite Hn, Hd, Hs. destruct u0; reflexivity.
+        unfold set_filter, set_not. cbn [ul_caps ul_wants ul_shallows ul_deepen ul_since ul_not ul_filter]. rewrite Hn, Hd, Hs. reflexivity.
 Qed.
 
 (* ---------- the whole request ---------- *)
@@ -235,16 +303,27 @@ Proof.
   rewrite item_of_ne by (cbn; lia). unfold ul_line. cbn [fst snd]. rewrite item_nz. now apply want_prefix_trim.
 Qed.
 
+Lemma handover_tail L f : forallb starts_ok L = true ->
+  match map item_of (L ++ ftail f) with
+  | it :: _ => match ul_line it with Some l => has_prefix (B "want ") l = false | None => True end
+  | [] => True
+  end.
+Proof.
+  intros H. destruct f as [|c f'].
+  - apply handover_ok. exact H.
+  - change (L ++ ftail (c :: f')) with (L ++ [PData (B "filter " ++ (c :: f') ++ [NL])] ++ [PFlush]).
+    rewrite app_assoc. apply handover_ok. rewrite forallb_app, H. reflexivity.
+Qed.
+
 Theorem ul_roundtrip u : ul_ok u = true ->
   exists ps, ul_encode u = ULok ps /\ forallb no_errline ps = true /\
              ul_decode (mksrc (map item_of ps) None) = inl (ul_canon u).
 Proof.
   unfold ul_ok. intros H.
   repeat (apply andb_prop in H; let X := fresh "G" in destruct H as [H X]).
-  rename G into Hfil, G0 into Hex, G1 into Hsi, G2 into Hi, G3 into H0, G4 into Hsh, G5 into Hw, G6 into Hne.
-  assert (caps_ok (ul_caps u) = true) as Hcaps by (unfold caps_ok; now rewrite H, G7).
-  apply Z.leb_le in H0. apply Nat.eqb_eq in Hfil. apply negb_true_iff in Hne. apply Nat.eqb_neq in Hne.
-  assert (ul_filter u = []) as Hf by (destruct (ul_filter u); [reflexivity|discriminate]).
+  rename G into Hex, G0 into Hsi, G1 into Hi, G2 into H0, G3 into Hsh, G4 into Hw, G5 into Hne.
+  assert (caps_ok (ul_caps u) = true) as Hcaps by (unfold caps_ok; now rewrite H, G6).
+  apply Z.leb_le in H0. apply negb_true_iff in Hne. apply Nat.eqb_neq in Hne.
   unfold ul_encode, ul_canon.
   destruct (sort_hashes (ul_wants u)) as [|w0 ws] eqn:Es.
   { apply (f_equal (@List.length hash)) in Es. unfold sort_hashes in Es. rewrite sort_by_length in Es. cbn in Es. contradiction. }
@@ -257,7 +336,7 @@ Proof.
   assert ((ul_deepen u >? 0)%Z && (match ul_since u with Some _ => true | None => false end || negb (Nat.eqb (List.length (ul_not u)) 0)) = false) as ->.
   { apply orb_prop in Hex. destruct Hex as [E|E]; [apply negb_true_iff in E; now rewrite E|].
     apply andb_prop in E. destruct E as [E1 E2]. destruct (ul_since u); [discriminate|]. rewrite E2. now rewrite andb_false_r. }
-  rewrite Hf. eexists. split; [reflexivity|].
+  eexists. split; [reflexivity|].
   set (D := (if (ul_deepen u >? 0)%Z then [PData (B "deepen " ++ dec_bytes (ul_deepen u) ++ [NL])] else []) ++
             match ul_since u with Some t => [PData (B "deepen-since " ++ dec_bytes t ++ [NL])] | None => [] end ++
             map (fun r => PData (B "deepen-not " ++ r ++ [NL])) (ul_not u)).
@@ -271,9 +350,10 @@ Proof.
     - apply forallb_forall. intros p Hp. apply in_map_iff in Hp. destruct Hp as (r & <- & _). reflexivity. }
   assert (forall first, first :: WS ++ SH ++ (if (ul_deepen u >? 0)%Z then [PData (B "deepen " ++ dec_bytes (ul_deepen u) ++ [NL])] else []) ++
             match ul_since u with Some t => [PData (B "deepen-since " ++ dec_bytes t ++ [NL])] | None => [] end ++
-            map (fun r => PData (B "deepen-not " ++ r ++ [NL])) (ul_not u) ++ [] ++ [PFlush]
-          = first :: WS ++ SH ++ D ++ [PFlush]) as Hshape.
-  { intros first. unfold D. cbn [app]. now rewrite <- !app_assoc. }
+            map (fun r => PData (B "deepen-not " ++ r ++ [NL])) (ul_not u) ++
+            match ul_filter u with [] => [] | n :: l => [PData (B "filter " ++ (n :: l) ++ [NL])] end ++ [PFlush]
+          = first :: WS ++ SH ++ D ++ ftail (ul_filter u)) as Hshape.
+  { intros first. unfold D, ftail. destruct (ul_filter u); now rewrite <- !app_assoc. }
   fold WS SH. rewrite Hshape. split.
   { (* no line starts with "ERR " *)
     cbn [forallb]. apply andb_true_intro. split; [destruct (ul_caps u); reflexivity|].
@@ -283,19 +363,20 @@ Proof.
     - unfold D. rewrite !forallb_app. repeat (apply andb_true_intro; split).
       + destruct (ul_deepen u >? 0)%Z; reflexivity.
       + destruct (ul_since u); reflexivity.
-      + apply forallb_forall. intros p Hp. apply in_map_iff in Hp. destruct Hp as (r & <- & _). reflexivity. }
+      + apply forallb_forall. intros p Hp. apply in_map_iff in Hp. destruct Hp as (r & <- & _). reflexivity.
+    - unfold ftail. destruct (ul_filter u); reflexivity. }
   (* decoding *)
   assert (forall u1, ul_wants u1 = [w0] -> ul_shallows u1 = [] -> ul_deepen u1 = 0%Z -> ul_since u1 = None -> ul_not u1 = [] ->
             ul_filter u1 = [] -> ul_caps u1 = ul_caps u ->
-            ul_wants_go (map item_of (WS ++ SH ++ D ++ [PFlush])) None u1
+            ul_wants_go (map item_of (WS ++ SH ++ D ++ ftail (ul_filter u))) None u1
             = inl (mkulreq (ul_caps u) (w0 :: dedup_from w0 ws) (dedup_from zero_hash (sort_hashes (ul_shallows u)))
-                           (ul_deepen u) (ul_since u) (ul_not u) [])) as Hrest.
+                           (ul_deepen u) (ul_since u) (ul_not u) (ul_filter u))) as Hrest.
   { intros u1 E1 E2 E3 E4 E5 E6 E7. rewrite map_app. unfold WS. rewrite ul_wants_lines by assumption.
-    rewrite app_assoc, ul_wants_handover by (apply handover_ok; exact Hstart).
+    rewrite app_assoc, ul_wants_handover by (apply handover_tail; exact Hstart).
     rewrite <- app_assoc, map_app. unfold SH. rewrite after_shallows by assumption.
     cbn [ul_caps ul_wants ul_shallows ul_deepen ul_since ul_not ul_filter]. unfold D. rewrite <- !app_assoc.
     rewrite after_depth; cbn [ul_caps ul_wants ul_shallows ul_deepen ul_since ul_not ul_filter]; auto.
-    - rewrite E1, E2, E6, E7. reflexivity.
+    - rewrite E1, E2, E7. reflexivity.
     - apply orb_prop in Hex. destruct Hex as [E|E]; [left; now apply negb_true_iff|right].
       apply andb_prop in E. destruct E as [Ea Eb]. apply Nat.eqb_eq in Eb. split.
       + destruct (ul_since u); [discriminate|reflexivity].
